@@ -200,3 +200,104 @@ def C09(ctx):
 
 
 PROPS.update({"C07": C07, "C08": C08, "C09": C09})
+
+
+def hashlib_crosscheck(ctx, n):
+    """Interpretation of the specification's uninterpreted H: the oracle the harness compares
+    the library against (RustCrypto called directly) and the library itself are cross-checked
+    against python hashlib on seeded vectors around every block boundary and multi-KiB."""
+    import hashlib
+    trace = os.path.join(ctx.work, "hashvec.trace.ndjson")
+    p = subprocess.run([core.harness_bin("record"), "hashvec", str(ctx.seed), str(n), trace, "30"],
+                       capture_output=True, text=True)
+    if p.returncode != 0:
+        raise core.ToolFailure("record hashvec failed")
+    algs = ["blake2s", "md5", "ripemd160", "sha1", "sha256", "sha512"]
+    bad = 0
+    cnt = 0
+    for line in open(trace):
+        r = json.loads(line)
+        data = bytes(r["in"]["data"])
+        want = [hashlib.new(a, data).hexdigest() for a in algs]
+        cnt += 1
+        o = r["out"]
+        ok = o.get("oracle") == want and o.get("file") == want and (o.get("str") in ([], want))
+        if not ok:
+            bad += 1
+            ctx.add_mismatch({"case": {"op": "hashvec", "in": {"len": len(data)}, "hashlib": want, "observed": o},
+                              "what": "library / oracle digest differs from python hashlib"}, "hashlib")
+    ctx.evaluations += cnt * 18
+    ctx.stages.append({"stage": "hashlib known-answer cross-check (interprets H)", "vectors": cnt, "mismatches": bad,
+                       "algorithms": algs})
+    core.log("[%s] hashlib cross-check: %d vectors x 6 algorithms x (hash_file, hash_str, oracle), %d mismatches"
+             % (ctx.pid, cnt, bad))
+
+
+def C13(ctx):
+    t = "quick" if ctx.quick else "thorough"
+    ctx.rule = ("reader machine: all inputs of length <= 5/7 over {x, newline, $, N} (marker '$N'), all schedules of reads of "
+                "1..3 bytes with Interrupted and a hard error anywhere (model checking); simulated schedules mapped to real "
+                "bytes ('$N' -> '$NetBSD') replayed through a scripted reader on hash_file/hash_patch for all six algorithms; "
+                "random inputs (binary around block boundaries, patch-like text with markers) x random schedules validated "
+                "through the reader machine; algorithm names; hashlib known answers; non-trivial = patch input with a "
+                "filtered line")
+    ctx.assumptions = ["'equals the standard algorithm' is decided by a differential known-answer test against python hashlib "
+                       "(TLC cannot evaluate SHA-512 etc.); everything around the hash function is decided on the model",
+                       "TLC-validated inputs are <= 1500 bytes; 4 KiB and 70 KB inputs only in the hashlib cross-check"]
+    ctx.mc("MC_Digest", "MC_Digest.%s.cfg" % t)
+    ctx.emit_replay("MC_Digest", "MC_Digest.sim.cfg", "sched-sim", workers=1,
+                    simulate="num=%d" % q(ctx, 3000, 30000), seed=ctx.seed, coverage=False)
+    ctx.record_validate("digest", q(ctx, 3000, 40000), "Tr_Digest", "Tr_Digest.cfg")
+    ctx.record_validate("algname", q(ctx, 500, 5000), "Tr_Digest", "Tr_Digest.cfg", name="algname")
+    hashlib_crosscheck(ctx, q(ctx, 64, 320))
+
+
+PROPS["C13"] = C13
+
+
+def C10(ctx):
+    t = "quick" if ctx.quick else "thorough"
+    ctx.rule = ("Distinfo values assembled from <= 2/3 entries over 8 distfile and 4 patch names (sub-directories, C3 A0, "
+                "C3 85, lone E9), 6 checksum choices, sizes up to u64::MAX, 3 RCS lines: write->parse and parse->write on "
+                "the spec; each canonical text replayed on the real code (parsed value and as_bytes); random canonical files "
+                "(names over all bytes except ASCII blanks, RCS lines of any bytes) and API-assembled values validated by TLC; "
+                "non-trivial = file with at least one entry")
+    ctx.assumptions = ["two names equal as paths but different as bytes are not generated (entries are keyed by PathBuf)",
+                       "API-assembled patch entries carry no size (the layout has no size line for patches)"]
+    ctx.emit_replay("MC_Distinfo", "MC_Distinfo.canon.%s.cfg" % t, "canon-enum")
+    ctx.exhaustive = True
+    ctx.record_validate("distcanon", q(ctx, 6000, 80000), "Tr_Distinfo", "Tr_Distinfo.cfg", name="distcanon")
+    ctx.record_validate("distbuild", q(ctx, 6000, 80000), "Tr_Distinfo", "Tr_Distinfo.cfg", name="distbuild")
+
+
+def C11(ctx):
+    t = "quick" if ctx.quick else "thorough"
+    ctx.rule = ("every sequence of <= 3/4 lines over 26 line kinds (checksum/size lines for 10 names incl. every patch-rule "
+                "exception, extra blanks and tabs, comment, blank, unknown algorithm, bad sizes, non-parenthesised name, RCS "
+                "lines): fold = declarative grouping, ignorable lines are no-ops; replayed on the real code; random "
+                "interleavings with names over arbitrary non-blank bytes validated by TLC; non-trivial = text with a "
+                "recognised line")
+    ctx.assumptions = ["truncated checksum lines ('SHA1 (f)', bare 'SHA1') and lines whose third field is not '=' are not judged",
+                       "'emul-patch-x' (shared hyphen) is not judged"]
+    ctx.emit_replay("MC_Distinfo", "MC_Distinfo.lines.%s.cfg" % t, "lines-enum")
+    ctx.exhaustive = True
+    ctx.record_validate("distmessy", q(ctx, 8000, 100000), "Tr_Distinfo", "Tr_Distinfo.cfg", name="distmessy")
+
+
+def C12(ctx):
+    t = "quick" if ctx.quick else "thorough"
+    os.makedirs(os.path.join(core.VERIF, "work", "scratch"), exist_ok=True)
+    ctx.rule = ("lookup machine = shortest recorded trailing sub-path for every path of <= 3/4 components and every set of "
+                "<= 2/3 recorded names (trailing sub-paths, distractors sharing the tail, near misses); every such "
+                "configuration x contents x {intact, hash corrupted at hex position 1 / 9 / 32, hash of another file, patch "
+                "hashed as plain file, size off by one} materialised as real files and verified by the real code; random "
+                "contents/nesting/corruptions validated by TLC; hashes interpreted by the oracle on the bytes the "
+                "specification says are absorbed; non-trivial = every case (a real file is verified)")
+    ctx.assumptions = ["permission errors, races and non-UTF-8 directory names are outside the stated quantifiers"]
+    ctx.mc("MC_Verify", "MC_Verify.%s.cfg" % t)
+    ctx.emit_run_validate("MC_Verify", "MC_Verify.emit.%s.cfg" % t, "verify-enum", "Tr_Distinfo", "Tr_Distinfo.cfg")
+    ctx.exhaustive = True
+    ctx.record_validate("verify", q(ctx, 4000, 50000), "Tr_Distinfo", "Tr_Distinfo.cfg")
+
+
+PROPS.update({"C10": C10, "C11": C11, "C12": C12})
